@@ -8,7 +8,7 @@ T = {
  'C01': ('E1', '4/C01', 'exhaustive choice-tree enumeration of systems (rank 1-3, 12 interaction kinds per pair, omega sets incl. copolymer + third species, dr- and dk-built domains, four construction paths of the same specification) x solver routes on the real code with a per-evaluation monitor; residual-bounded oracle rebuilt from the spec',
          'Every system of a finite lattice (rank 1-3, all interaction kinds per pair, omega kinds, kT, densities, solver routes) is built and solved with the real code; after every cost evaluation and at every converged root the PRISM equation and each pair closure are checked against references rebuilt from the spec, bounded by the reported residual.',
          'Domain transforms define the r<->k correspondence (C07/C08); scipy.optimize.root; properties are conditional on convergence'),
- 'C02': ('E1', '4/C02', 'exhaustive enumeration of (eta x refinement ladder x six base lengths incl. non-powers of two) and (potential x closure x kT x density ladder down to 1e-7) on the real solver; closed-form oracles with analytic error envelopes',
+ 'C02': ('E1', '4/C02', 'exhaustive enumeration of (eta x refinement ladder x six base lengths incl. non-powers of two) and (potential x closure x kT x density ladder down to 1e-9) on the real solver; closed-form oracles with analytic error envelopes',
          'Complete product of packing fractions x six-level refinement ladder and of dilute-limit cases, each solved by the real code and compared with Wertheim-Thiele / Boltzmann-factor closed forms with error bounds proportional to dr taken from the analytic solution, plus shrink-under-refinement.',
          'finite ladders stand in for "all sufficiently fine domains"; Gauss-Legendre quadrature of closed forms'),
  'C03': ('E1', '4/C03', 'exhaustive enumeration of hard-core systems x trial-gamma alphabet with a closure-call monitor; exact c+gamma=-1 oracle',
@@ -27,7 +27,7 @@ T = {
          'scipy.fftpack.dst is trusted as a linear map'),
  'C08': ('E1', '4/C08', 'exhaustive enumeration of analytic families x widths x amplitudes x refinement ladder; closed-form 3-D transforms with analytic first-order error constants',
          'Forward and backward transforms of every family member on every ladder level are compared separately with closed forms, bounded by analytic constants times dr and required to shrink.', 'finite ladder'),
- 'C09': ('E1', '4/C09', 'exhaustive elementwise product (closure x alias x flag spelling x r-vs-sigma class x gamma x u alphabets incl. tiny and infinite values) and all vectors on tiny grids on the real closure classes; call histories (re-chained calls, two instances with different flags in all orders, valid call after a failed one); published relations re-implemented',
+ 'C09': ('E1+E2', '4/C09', 'all flag-assignment/copy/evaluate histories of one closure object to depth 4 (quick) / 6 (thorough) and exhaustive elementwise product (closure x alias x flag spelling x r-vs-sigma class x gamma x u alphabets incl. tiny and infinite values) and all vectors on tiny grids on the real closure classes; call histories (re-chained calls, two instances with different flags in all orders, valid call after a failed one); published relations re-implemented',
          'The complete product is evaluated on the real closure objects and compared with reference relations; non-interference is checked on all vectors over a small alphabet on 1-3 point grids.', 'published closure relations'),
  'C10': ('E1', '4/C10', 'exhaustive enumeration of potential x parameters x grids x sigma placements (every on-grid sigma) x diameter pairs on the real classes, plus all sigma-assignment/evaluation histories to depth 3/5 with results held, all construction orders of co-existing objects, wiring through a System; documented u(r) re-implemented',
          'Every potential class is evaluated for every element of the product and compared with the documented form including the contact rule.', 'documented forms'),
@@ -37,7 +37,7 @@ T = {
          'Every combination is executed; matching data must come back bit-for-bit, mismatching data must raise before a cost evaluation is possible.', 'numpy.allclose semantics'),
  'C13': ('E1+E2', '4/C13', 'exhaustive operator matrix (rank x length x operator x operand kind x in/out of place x 3x3 space flags) and all sequences to depth 3/4 over 19 in-place/observer operations (11 for IdentityMatrixArray) on the real MatrixArray with all out-of-place results held; per-matrix numpy reference',
          'Every operator/operand/flag combination and every short in-place history is executed on the real class and compared with a per-matrix loop reference, memory sharing and operand snapshots.', 'numpy elementwise arithmetic'),
- 'C14': ('E2', '4/C14', 'explicit-state BFS (successors by deepcopy) over operation histories of the real PairTable/ValueTable for four label sets, nested/falsy/array values, against a dict reference model including the aliasing partition',
+ 'C14': ('E2', '4/C14', 'explicit-state BFS (successors by deepcopy) over operation histories of the real PairTable/ValueTable for four label sets, nested/falsy/array/list-of-key-count values, against a dict reference model including the aliasing partition; complete product of nine real library value classes x six assignment forms x every victim pair with in-place mutation one level down',
          'All histories up to a depth over set/set-list/setUnset/apply/mutate/check/iterate are executed on the real tables and stepped alongside a plain-dict reference model.', 'depth-bounded, no fixpoint claim'),
  'C15': ('E2', '4/C15', 'explicit-state BFS to fixpoint + all sequences to a depth over assignment histories (scalar, list, iterator keys; nudged, irrational and trace values; three label sets) of the real Density/Diameter, and all interleavings of two live objects with rotated type lists; closed forms from a reference dict',
          'All assignment histories up to a depth over a 3-value alphabet are executed on the real classes; every derived quantity is compared with its closed form on every state.', 'depth-bounded'),
